@@ -80,7 +80,7 @@ pub fn parse_cfg(script: &str) -> Cfg {
                     "dirty" => c.dirty = Some(v.parse().unwrap()),
                     "defer" => {
                         let (a, b) = v.split_once(':').unwrap();
-                        c.defer = Some((a.parse().unwrap(), b.parse().unwrap()));
+                        c.defer = Some((a.parse().unwrap(), if b == "max" { u64::MAX } else { b.parse().unwrap() }));
                     }
                     "runtime" => c.runtime_ct = v == "ct",
                     "init" => c.lazy = v == "lazy",
@@ -147,7 +147,8 @@ impl<const N: usize> St<N> {
             b = b.set_max_dirty_bytes_before_sync(d);
         }
         if let Some((a, c)) = self.cfg.defer {
-            b = b.set_deferred_index_dump_times(Duration::from_millis(a), Duration::from_millis(c));
+            // `defer=<min>:max`: no upper bound (Duration::MAX)
+            b = b.set_deferred_index_dump_times(Duration::from_millis(a), if c == u64::MAX { Duration::MAX } else { Duration::from_millis(c) });
         }
         b
     }
@@ -430,6 +431,17 @@ async fn exec<const N: usize>(st: &mut St<N>, ctx: &mut Ctx, toks: &[&str]) {
             let s = need_storage!(st, ctx, "CF");
             let r = s.check_filters(key_of::<N>(key)).await;
             ctx.emit(format!("CF {}", match r { Some(true) => "maybe", Some(false) => "no", None => "none" }));
+        }
+        ("GF", [key]) => {
+            // <Storage as BloomProvider>::get_filter(): one filter for the whole storage (closed blobs and the active
+            // one), None when nothing can be said; probed with the key
+            let s = need_storage!(st, ctx, "GF");
+            use pearl::filter::FilterTrait;
+            let r = match pearl::BloomProvider::get_filter(s).await {
+                None => "none",
+                Some(f) => match f.contains_fast(&key_of::<N>(key)) { pearl::FilterResult::NeedAdditionalCheck => "maybe", pearl::FilterResult::NotContains => "no" },
+            };
+            ctx.emit(format!("GF {}", r));
         }
         ("CFS", [key]) => {
             let s = need_storage!(st, ctx, "CFS");
